@@ -1,1 +1,3 @@
 pub mod value;
+pub mod mutate;
+pub mod readers;
